@@ -7824,8 +7824,11 @@ class SFTPServer:
             abspath2 = os.path.join(mapped_newdir, oldpath)
 
             # Make sure the symlink doesn't point outside the chroot
-            if os.path.realpath(abspath1) != os.path.realpath(abspath2):
-                oldpath = os.path.relpath(abspath1, start=mapped_newdir)
+            realpath1 = os.path.realpath(abspath1)
+
+            if realpath1 != os.path.realpath(abspath2):
+                oldpath = os.path.relpath(
+                    realpath1, start=os.path.realpath(mapped_newdir))
 
         newpath = self.map_path(newpath)
 
